@@ -1634,6 +1634,8 @@ pub fn seeded_session(rng: &mut StdRng, profile: &str) -> Option<String> {
         "fcnt" => (&[0, 5, 0xFFFE], &[-1, 0, 0xFFFE, 0xFFFF, 0x1FFFE, 0x1_0000, 0x7FFF_FFFE, 0xFFFF_BFFE, 0xFFFF_FFFC, 0xFFFF_FFFE]),
         "faults" => (&[0, 0xFFFE, 0xFFFF, 0x1_FFFF, 0xFFFF_FFFC, 0xFFFF_FFFD, 0xFFFF_FFFE, 0xFFFF_FFFF], &[-1, 0]),
         "adr" => (&[0, 0xFFFF_FF00], &[-1]),
+        // a persisted session is lossless at every counter value, the halves of the 32-bit range included
+        "persist" => (&[0, 0xFFFF, 0x7FFF_FFFF, 0x8000_0000, 0xFFFF_FF00], &[-1, 0, 0xFFFF, 0x7FFF_FFFF, 0x8000_0000, 0xFFFF_FFF0]),
         // frames that are not accepted must change nothing whatever the state of the session, the last counter included
         "reject" => (&[0, 0xFFFF, 0xFFFF_FFFE, 0xFFFF_FFFF], &[-1, 0, 0xFFFF]),
         _ => return None,
